@@ -194,6 +194,7 @@ class Session:
         self.chunk = params.get('chunk', 'whole')
         self.challenge = None
         self.impl_state = 'waiting'
+        self.impl_dump = ''
         self.hits = {}
         self.keyring = os.path.join(self.h.rundir, '.dbus-keyrings')
 
@@ -339,6 +340,7 @@ class Session:
         got = self.classify(bytes.fromhex(kv['out']) if kv['out'] != '-' else b'')
         st = kv['state']
         self.impl_state = st
+        self.impl_dump = re.sub(r'cookie_id=-?\d+', 'cookie_id=*', re.sub(r'pid=\d+', 'pid=*', kv.get('dump', '')))
         self.hit('cmd-' + cmd)
         desc = '%s in %r' % (c, before)
         # outcome alternatives
@@ -406,7 +408,9 @@ class Session:
         return out
 
     def key(self):
-        return repr(self.m.key()) + '|' + self.impl_state
+        # the implementation's own state (hook H2) is part of the key: two histories are only merged if the DBusAuth object
+        # itself is in the same state, not merely the model
+        return repr(self.m.key()) + '|' + self.impl_state + '|' + self.impl_dump
 
     def died(self):
         self.h.close()
